@@ -150,6 +150,12 @@ impl Ctx {
         res
     }
     fn resolve_tid(&mut self, spec: &str) -> Option<Vec<u8>> {
+        // `<spec>+<hex>`: the id `<spec>` stands for, followed by further bytes (an over-long id)
+        if let Some((base, ext)) = spec.split_once('+') {
+            let mut t = self.resolve_tid(base)?;
+            t.extend(unhex(ext)?);
+            return Some(t);
+        }
         if let Some(h) = spec.strip_prefix('x') {
             return unhex(h);
         }
@@ -443,7 +449,7 @@ impl Engine for HandlerEngine {
                 }
                 14..=15 => {
                     // unsolicited responses: raw ids, the refresh prefix
-                    let rt = if rng.chance(1, 3) { "R~fresh".to_string() } else { tid.clone() };
+                    let rt = match rng.below(6) { 0 | 1 => "R~fresh".to_string(), 2 => { let l = *rng.pick(&[1usize, 1, 2, 8]); format!("R~fresh+{}", hex(&rng.bytes(l))) } _ => tid.clone() };
                     let nodes: Vec<String> = (0..rng.below(4)).map(|_| format!("{}@{}", if rng.chance(1, 6) { hex(&me) } else { hex(&rng.bytes(20)) }, gen_addr(rng, false, pool))).collect();
                     ops.push(format!("in {rt} {src} r id={sid} values=- nodes={} nodes6=- token=none @{t}", if nodes.is_empty() { "-".into() } else { nodes.join(";") }));
                 }
@@ -615,8 +621,8 @@ fn check_op(c: &mut Ctx, w: &[&str], before: &(HashSet<SocketAddr>, HashSet<Sock
         let spec = w[1];
         let src = parse_addr(w[2]).unwrap();
         let after = contact_sets(c);
-        if spec.starts_with('x') {
-            // C12: an id that derives from no request of this node
+        if spec.starts_with('x') || spec.contains('+') {
+            // C12: an id that derives from no request of this node (random, or of a wrong length)
             let union = |x: &(HashSet<SocketAddr>, HashSet<SocketAddr>)| -> HashSet<SocketAddr> { x.0.union(&x.1).copied().collect() };
             if union(&after) != union(before) || !c.last_sent.is_empty() || !c.last_yields.is_empty() {
                 st.fail(case, line, "[C12] a response with a transaction id this node never used changed its contacts, searches or caused traffic");
@@ -820,7 +826,21 @@ async fn run_scenario(ctx: &mut Option<Ctx>, req: &str, case: usize, out: &mut V
     let mut new_sends: Vec<(SocketAddr, Option<Message>, usize, bool)> = vec![];
     macro_rules! run { ($op:expr) => {{ let l = out.len(); let r = exec_checked(ctx, &$op, case, l, st).await; out.push(r);
         if let Some(c) = ctx.as_ref() { new_sends.extend(c.last_sent.iter().cloned()); } }}; }
-    run!(format!("hnew {} fam={} ro={} port={port} fail=- @{t}", hex(&me), if v6 { "v6" } else { "v4" }, rng.below(2)));
+    // C04 "send failures": on networks other than the truthful one (C02 presupposes that every
+    // datagram can be sent) some addresses are unreachable at the socket level, so that query rounds
+    // fail partially; drawn from a generator of its own so that the main stream is unchanged
+    let mut frng = Rng::new(kv(&w, "seed").and_then(|s| s.parse::<u64>().ok()).unwrap_or(1) ^ 0xfa11_fa11);
+    let mut fail: Vec<String> = vec![];
+    if policy != "truthful" && frng.chance(1, 2) {
+        let den = *frng.pick(&[2u64, 3, 5]);
+        for nd in nodes.iter() { if frng.chance(1, den) { fail.push(addr_str(&nd.addr)); } }
+        if policy == "chain" {
+            // nodes that will be named later on
+            for i in nodes.len()..nodes.len() + 130 { if frng.chance(1, den) { fail.push(format!("v4:{}:{}", hex(&[10, 3, (i >> 8) as u8, i as u8]), 8100)); } }
+        }
+        st.hit("scenario_with_send_failures");
+    }
+    run!(format!("hnew {} fam={} ro={} port={port} fail={} @{t}", hex(&me), if v6 { "v6" } else { "v4" }, rng.below(2), if fail.is_empty() { "-".to_string() } else { fail.join(",") }));
     // bootstrap contacts: a non-empty subset of the network, as good nodes
     let k0 = rng.range(1, 12.min(nodes.len() as u64)) as usize;
     for i in 0..k0 {
@@ -891,15 +911,21 @@ async fn run_scenario(ctx: &mut Option<Ctx>, req: &str, case: usize, out: &mut V
                 _ => {
                     // hostile
                     let other_src = gen_addr(&mut rng, v6, 30);
-                    let junk_nodes: Vec<String> = (0..rng.below(5)).map(|_| match rng.below(4) {
+                    let junk_nodes: Vec<String> = (0..rng.below(5)).map(|_| match rng.below(6) {
                         0 => format!("{}@{}", hex(&me), gen_addr(&mut rng, v6, 30)),
+                        // the id of the responder / of a node of the network under an address of somebody else
+                        4 => format!("{}@{}", hex(&nd.id), gen_addr(&mut rng, v6, 30)),
+                        5 => format!("{}@{}", hex(&nodes[rng.below(nodes.len() as u64) as usize].id), gen_addr(&mut rng, v6, 30)),
                         1 => c8.first().cloned().unwrap_or_else(|| format!("{}@{}", hex(&rng.bytes(20)), gen_addr(&mut rng, v6, 30))),
                         _ => format!("{}@{}", hex(&rng.bytes(20)), gen_addr(&mut rng, v6, 30)),
                     }).collect();
                     let (jn, jn6) = if v6 { ("nodes=-".to_string(), format!("nodes6={}", nodes_field(&junk_nodes))) } else { (format!("nodes={}", nodes_field(&junk_nodes)), "nodes6=-".to_string()) };
                     let forged_vals = format!("{};{}", gen_addr(&mut rng, false, 900), gen_addr(&mut rng, false, 900));
                     let at = t + lat(&mut rng);
-                    match rng.below(12) {
+                    match rng.below(14) {
+                        // the outstanding id (or the refresh prefix) followed by further bytes: not an id of this node
+                        12 => { let l = *rng.pick(&[1usize, 1, 4]); events.push((at, format!("in #{k}+{} {} r id={} values={forged_vals} {jn} {jn6} token={}", hex(&rng.bytes(l)), addr_str(&nd.addr), hex(&nd.id), hex(&rng.bytes(4))))) }
+                        13 => events.push((at, format!("in R~fresh+{} {other_src} r id={} values={forged_vals} {jn} {jn6} token=none", hex(&rng.bytes(1)), hex(&rng.bytes(20))))),
                         0 => events.push((at, format!("in #{k}~fresh {} r id={} values={forged_vals} {jn} {jn6} token={}", addr_str(&nd.addr), hex(&nd.id), hex(&rng.bytes(4))))),
                         1 => events.push((at, format!("in x{} {} r id={} values={forged_vals} {jn} {jn6} token=none", hex(&rng.bytes(8)), addr_str(&nd.addr), hex(&nd.id)))),
                         2 => events.push((at, format!("in R~fresh {other_src} r id={} values={forged_vals} {jn} {jn6} token=none", hex(&rng.bytes(20))))),
